@@ -11,6 +11,15 @@
 (*   sus               {sa}         -> sus   = SusDef(text)      (-1 = None)  *)
 (*   sample            {sa,s,k,own} -> v,oob v[i] = sa[i] for every i,        *)
 (*                                           get(n) = None                    *)
+(*   suffix_array_big  {}           -> sa,rk the same verdict for texts with   *)
+(*                                           ~10^5 sentinels: rk[p] = row of   *)
+(*                                           sentinel p (a re-indexing of sa   *)
+(*                                           logged by the harness, verified   *)
+(*                                           against sa): IsValidSAW           *)
+(* run.cfg = [kind = "unary", n, a, sent] (text A^(n-1)$ too long to log; its  *)
+(* suffix array n-1..0 is known in closed form, MC lemma UnaryLemma):          *)
+(*   sample_unary      {k,s,rows}   -> len,vals  vals[j] = get(rows[j]) must   *)
+(*                                           be n-1-rows[j], len = n           *)
 (* `sa` arguments are the array returned (and validated) by the first event.  *)
 (* Explains = the property (REJECT when false).  Exact = conformance with the *)
 (* machine layer: the code's concrete sentinel order (reverse text order,     *)
@@ -28,6 +37,14 @@ Explains(cfg, e) ==
     LET c == e.c  r == e.r  t == cfg.text  n == Len(cfg.text) IN
     /\ r.st = "ok"
     /\ CASE c.op = "suffix_array" -> cfg.kind = "bytes" /\ SentinelOK(t) /\ IsValidSA(r.sa, t)
+         [] c.op = "suffix_array_big" -> cfg.kind = "bytes" /\ SentinelOK(t) /\ IsValidSAW(r.sa, t, r.rk)
+         [] c.op = "sample_unary" ->
+              /\ cfg.kind = "unary" /\ cfg.n >= 2 /\ cfg.a > cfg.sent /\ c.a.s >= 1 /\ c.a.k >= 1
+              /\ r.len = cfg.n
+              /\ Len(r.vals) = Len(c.a.rows)
+              /\ \A j \in 1..Len(c.a.rows) :
+                    /\ c.a.rows[j] \in 0..(cfg.n - 1)
+                    /\ r.vals[j] = cfg.n - 1 - c.a.rows[j]              \* = UnarySA(n)[row + 1]
          [] c.op = "suffix_array_int" -> cfg.kind = "int" /\ DenseInt(t) /\ IsValidSA(r.sa, t)
          [] c.op = "lcp" -> /\ SingleSentinel(t) /\ n >= 2
                             /\ IsPerm(c.a.sa, n)
@@ -42,7 +59,10 @@ Explains(cfg, e) ==
 \* machine-layer conformance (only evaluated when Explains holds): with fewer than three sentinel
 \* occurrences there is only one admissible order
 Exact(cfg, e) ==
-    IF e.c.op = "suffix_array" /\ SentCount(cfg.text) >= 3 THEN IsSortedSA(e.r.sa, cfg.text) ELSE TRUE
+    IF e.c.op = "suffix_array" /\ SentCount(cfg.text) >= 3 THEN IsSortedSA(e.r.sa, cfg.text)
+    ELSE IF e.c.op = "suffix_array_big"           \* the code's order: sentinel suffixes in reverse text order
+    THEN \A j \in 1..(SentCount(cfg.text) - 1) : e.r.sa[j] > e.r.sa[j + 1]
+    ELSE TRUE
 
 \* Cross-checks of the specification itself at the real constants (Esc = 127, T = 64, the logged
 \* rates): the machine layer, run on the recorded arguments, must agree with the definition layer.
